@@ -18,9 +18,9 @@ open VL VL.Persist
 
 /-! ## Part 1 — dict codec -/
 
-/-- **Round trip.**  Every representable value (no bare set, no reserved key `type`/`class`/`callable` carrying an
-    identifier-like string in a str-keyed mapping, frozenset elements and mapping keys hashable and pairwise
-    different, classes and callables resolvable by their dotted name) is written and reloads to itself. -/
+/-- **Round trip.**  Every representable value (set / frozenset elements and mapping keys hashable and pairwise
+    different, classes and callables resolvable by their dotted name, nothing inside without a dict spelling) is
+    written and reloads to itself — plain sets and mappings using the reserved keys included. -/
 theorem codec_roundtrip (env : Env) (v : PVal) (h : Representable env v = true) :
     ∃ j, serialize v = .ok j ∧ deserialize env j = .ok v :=
   rt_val env v h
@@ -76,54 +76,44 @@ theorem representable_serializable (env : Env) (v : PVal) (h : Representable env
   obtain ⟨j, hj, _⟩ := rt_val env v h
   exact (codec_save_ok_iff v).1 ⟨j, hj⟩
 
-/-! The full statement of the property for the codec would be
-      `∀ env v, (∃ e, serialize v = .error e) ∨ (∃ j, serialize v = .ok j ∧ deserialize env j = .ok v)`
-    ("rejected when saving rather than silently altered").  It is FALSE of the current code: the three witnesses
-    below are written without complaint and come back different / not at all.  `codec_roundtrip` + `codec_rejects`
-    is the part that holds (`codec_save_or_faithful_partial`). -/
-theorem codec_save_or_faithful_partial (env : Env) (v : PVal)
-    (h : Representable env v = true ∨ Serializable v = false) :
+/-- **Rejected when saving, or reloads faithfully** (the full statement of the property for the codec).  For every
+    in-memory value — `WFval` lists representation invariants of live Python objects, not restrictions on
+    configurations — `serialize_value` either raises, or writes a dictionary that `deserialize_value` turns back into
+    the same value.  Nothing is silently altered: plain sets come back as sets, mappings with the reserved keys
+    `type` / `class` / `callable` come back as the same mappings (since 722783a). -/
+theorem codec_save_or_faithful (env : Env) (v : PVal) (hwf : WFval env v = true) :
     (∃ e, serialize v = .error e) ∨ (∃ j, serialize v = .ok j ∧ deserialize env j = .ok v) := by
-  cases h with
-  | inl h => exact Or.inr (rt_val env v h)
-  | inr h => obtain ⟨e, he, _⟩ := ser_err v h; exact Or.inl ⟨e, he⟩
+  cases hs : Serializable v with
+  | false => obtain ⟨e, he, _⟩ := ser_err v hs; exact Or.inl ⟨e, he⟩
+  | true => exact Or.inr (rt_val env v (wf_ser_repr env v hwf hs))
+
+/-- ... and which of the two happens is decided by `Serializable` alone -/
+theorem codec_faithful_iff_serializable (env : Env) (v : PVal) (hwf : WFval env v = true) :
+    (∃ j, serialize v = .ok j ∧ deserialize env j = .ok v) ↔ Serializable v = true := by
+  constructor
+  · intro ⟨j, hj, _⟩; exact (codec_save_ok_iff v).1 ⟨j, hj⟩
+  · intro hs; exact rt_val env v (wf_ser_repr env v hwf hs)
 
 def envW : Env := { classes := ["votelib.candidate.Person"], callables := ["builtins.len"], others := [] }
 
-/-- a bare set is written as a list and comes back as a list -/
-theorem codec_set_altered_witness :
-    serialize (.set [.atom (.int 1)]) = .ok (.list [.int 1])
-    ∧ deserialize envW (.list [.int 1]) = .ok (.list [.atom (.int 1)]) := by
-  exact ⟨rfl, by decide +kernel⟩
+/-- the three configurations that were silently altered / unloadable before 722783a now reload to themselves -/
+theorem codec_set_reloads :
+    ∃ j, serialize (.set [.atom (.int 1), .atom (.int 2)]) = .ok j
+      ∧ deserialize envW j = .ok (.set [.atom (.int 1), .atom (.int 2)]) :=
+  codec_roundtrip envW _ (by decide +kernel)
 
-/-- `Person('x', properties={'type': 'independent'})`: written verbatim, unloadable -/
-theorem codec_reserved_key_witness :
+/-- `Person('x', properties={'type': 'independent'})` -/
+theorem codec_reserved_key_reloads :
     let v := PVal.obj "votelib.candidate.Person"
       [("name", .atom (.str "x")), ("properties", .dict [(.atom (.str "type"), .atom (.str "independent"))])]
-    ∃ j, serialize v = .ok j ∧ deserialize envW j = .error unresolvable := by
-  refine ⟨_, rfl, ?_⟩
-  decide +kernel
+    ∃ j, serialize v = .ok j ∧ deserialize envW j = .ok v :=
+  codec_roundtrip envW _ (by decide +kernel)
 
-/-- `{'callable': 'builtins.len'}` (a plain mapping of strings) comes back as the function `len` -/
-theorem codec_reserved_callable_witness :
+/-- `{'callable': 'builtins.len'}` stays a mapping of strings -/
+theorem codec_reserved_callable_reloads :
     let v := PVal.dict [(.atom (.str "callable"), .atom (.str "builtins.len"))]
-    ∃ j, serialize v = .ok j ∧ deserialize envW j = .ok (.callable "builtins.len" true) := by
-  refine ⟨_, rfl, ?_⟩
-  decide +kernel
-
-theorem codec_save_or_faithful_witness :
-    ¬ ∀ (env : Env) (v : PVal),
-      (∃ e, serialize v = .error e) ∨ (∃ j, serialize v = .ok j ∧ deserialize env j = .ok v) := by
-  intro h
-  have hs := codec_set_altered_witness
-  cases h envW (.set [.atom (.int 1)]) with
-  | inl h1 => obtain ⟨e, he⟩ := h1; rw [hs.1] at he; cases he
-  | inr h1 =>
-    obtain ⟨j, hj, hd⟩ := h1
-    rw [hs.1] at hj
-    cases hj
-    rw [hs.2] at hd
-    cases hd
+    ∃ j, serialize v = .ok j ∧ deserialize envW j = .ok v :=
+  codec_roundtrip envW _ (by decide +kernel)
 
 /-- non-vacuity: a nested configuration (object holding a Fraction, a Decimal, a tuple, a frozenset, a dict keyed by
     non-strings, a callable by name, a nested object) meets `Representable` -/
@@ -133,8 +123,13 @@ def exVal : PVal := .obj "votelib.evaluate.core.Conditioned"
   [("eliminator", .obj "votelib.evaluate.threshold.RelativeThreshold" [("threshold", .dec "0.05"), ("accept_equal", .atom (.bool true))]),
    ("evaluator", .dict [(.atom (.int 1), .frac (7/5)), (.tuple [.atom (.str "a"), .atom .none], .callable "votelib.component.quota.droop" true)]),
    ("subsetter", .fset [.atom (.str "x"), .atom (.int 3)]),
+   ("levels", .set [.atom (.int 0), .atom (.int 1)]),
+   ("properties", .dict [(.atom (.str "type"), .atom (.str "dict")), (.atom (.str "class"), .atom (.int 1))]),
    ("depth", .tuple [.atom (.int 1), .list [.atom (.float "0.5")], .dict [(.atom (.str "k"), .atom (.str "type"))]])]
 example : Representable exEnv exVal = true := by decide +kernel
+example : WFval exEnv exVal = true := by decide +kernel
+/-- a value that is refused: the invariants hold, saving raises -/
+example : WFval exEnv (.list [exVal, .callable "votelib.component.divisor._modified_divisor" false]) = true := by decide +kernel
 example : Serializable (.list [.callable "votelib.component.divisor._modified_divisor" false]) = false := by decide +kernel
 
 
@@ -143,93 +138,44 @@ section BltPart
 open VL.Blt
 
 /-- **Round trip.**  A document whose ballots name listed candidates, are pairwise different, and whose weights are
-    non-negative with a BLT spelling (int, Decimal, integral Fraction) is written by `dump_lines` to lines that
+    non-negative (int, Decimal, Fraction — a proper Fraction is written `p/q` and read back by `Fraction()`) is written by `dump_lines` to lines that
     `load_lines` reads back to the same seats, candidate names, withdrawn flags (any subset, any position: line
     `-(i+1)`), ballots with their weights (by value), and title — including the one-candidate and no-candidate
     cases of the candidate/title disambiguation. -/
 theorem blt_roundtrip (d : Doc Weight) (h : WFdoc d = true) : loadBlt (dumpBlt d) = .ok (eraseDoc d) :=
   load_dump d h
 
-/-- **Which exceptions the parser can raise at all** (any token lines): the format's ParseError, or one of three
-    foreign ones — decimal.InvalidOperation (a first item that is not a number, NaN weight), ValueError (digits
-    `int()` refuses), IndexError (candidate number beyond the header count). -/
-theorem blt_error_kinds (ls : List Line) (e : Err) (h : loadBlt ls = .error e) :
-    e = Err.parseError ∨ e = Err.other "ValueError" ∨ e = Err.other "InvalidOperation" ∨ e = Err.other "IndexError" := by
-  rcases loadBlt_err ls e h with (h1 | h1 | h1) | h1
-  · exact Or.inl h1
-  · exact Or.inr (Or.inl h1)
-  · exact Or.inr (Or.inr (Or.inl h1))
-  · exact Or.inr (Or.inr (Or.inr h1))
-
-/-! The full statement `blt_parse_total : ∀ ls, (∃ d, loadBlt ls = .ok d) ∨ loadBlt ls = .error .parseError` is FALSE of
-    the current parser (three witnesses below; a fourth shows wrong data returned silently).  What holds: every
-    *structural* defect of a lexically sane text (all items of the lines read as number lines are numbers) — missing
-    end marker, ballot not zero-terminated, withdrawn line after a ballot, wrong number of strings, unquoted string,
-    string after a blank line, bad header — is a ParseError; the only other exception left is IndexError. -/
-theorem blt_parse_total_partial (ls : List Line) (hl : lexOK ls = true) :
-    (∃ d, loadBlt ls = .ok d) ∨ loadBlt ls = .error Err.parseError ∨ loadBlt ls = .error (Err.other "IndexError") := by
+/-- **Parse error or data, never anything else** (the full statement for the BLT parser).  On ANY token lines —
+    items that are not numbers, digits `int()` refuses, NaN weights, candidate numbers outside 1..n, missing
+    terminators, misplaced withdrawn lines, wrong string sections — `load_lines` returns a document or raises
+    BLTParseError (since b98eeeb). -/
+theorem blt_parse_total (ls : List Line) : (∃ d, loadBlt ls = .ok d) ∨ loadBlt ls = .error Err.parseError := by
   cases h : loadBlt ls with
   | ok d => exact Or.inl ⟨d, rfl⟩
-  | error e =>
-    rcases loadBlt_lexOK ls e hl h with h1 | h1
-    · subst h1; exact Or.inr (Or.inl rfl)
-    · subst h1; exact Or.inr (Or.inr rfl)
+  | error e => rw [loadBlt_err ls e h]; exact Or.inr rfl
 
-/-- ... and when in addition every ballot line read names candidates 1..n of the header `n s`, nothing but the
-    ParseError is left: `loads` returns a document or raises BLTParseError. -/
-theorem blt_parse_total_inrange (ls : List Line) (hl : lexOK ls = true) (hi : idxOK ls = true) :
-    (∃ d, loadBlt ls = .ok d) ∨ loadBlt ls = .error Err.parseError := by
-  cases h : loadBlt ls with
-  | ok d => exact Or.inl ⟨d, rfl⟩
-  | error e => rw [loadBlt_inrange ls e hl hi h]; exact Or.inr rfl
+/-- **No partial or aliased data**: a document that is returned names only candidates of its own candidate list
+    (in particular candidate number 0 inside a ballot is no longer read as the last candidate). -/
+theorem blt_loaded_indices_valid (ls : List Line) (d : Doc Rat) (h : loadBlt ls = .ok d) :
+    ∀ b ∈ d.ballots, ∀ i ∈ b.1, i < d.cands.length :=
+  loadBlt_valid ls d h
 
-/-- `"2 1\nabc 1 0\n0"`: decimal.InvalidOperation -/
-theorem blt_parse_total_witness_invalid_operation :
-    loadBlt [.toks [.nat 2, .nat 1], .toks [.bad, .nat 1, .nat 0], .toks [.nat 0]] = .error (Err.other "InvalidOperation") := by
-  rfl
-/-- `"2 1\n1 ² 0\n0"`: ValueError -/
-theorem blt_parse_total_witness_value_error :
-    loadBlt [.toks [.nat 2, .nat 1], .toks [.nat 1, .udigit, .nat 0], .toks [.nat 0]] = .error (Err.other "ValueError") := by
-  rfl
-/-- `"2 1\n1 3 0\n0"`: IndexError -/
-theorem blt_parse_total_witness_index_error :
-    loadBlt [.toks [.nat 2, .nat 1], .toks [.nat 1, .nat 3, .nat 0], .toks [.nat 0]] = .error (Err.other "IndexError") := by
-  decide +kernel
-/-- `"2 1\n1 0 2 0\n0"`: candidate number 0 inside a ballot is read as the LAST candidate (Python index -1) -/
-theorem blt_zero_index_alias_witness :
-    loadBlt [.toks [.nat 2, .nat 1], .toks [.nat 1, .nat 0, .nat 2, .nat 0], .toks [.nat 0]]
-      = .ok { nSeats := 1, cands := [("1", false), ("2", false)], ballots := [([1, 1], 1)], title := none } := by
-  decide +kernel
-
-theorem blt_parse_total_witness :
-    ¬ ∀ ls : List Line, (∃ d, loadBlt ls = .ok d) ∨ loadBlt ls = .error Err.parseError := by
-  intro h
-  have hw := blt_parse_total_witness_index_error
-  rcases h _ with ⟨d, hd⟩ | he
-  · rw [hw] at hd; cases hd
-  · rw [hw] at he; cases he
-
-/-- a proper Fraction weight has no BLT spelling: the writer emits an item the parser cannot read
-    (`dumps({('a','b'): Fraction(1,2)}, ...)` then `loads`: decimal.InvalidOperation) -/
-theorem blt_fraction_weight_witness :
-    loadBlt (dumpBlt { nSeats := 1, cands := [("a", false), ("b", false)], ballots := [([0, 1], .fraction (1/2))], title := none })
-      = .error (Err.other "InvalidOperation") := by
+/-- the four texts that raised foreign exceptions / returned aliased data before b98eeeb: all ParseError now
+    (`abc 1 0`, `1 ² 0`, `1 3 0`, `1 0 2 0` after the header `2 1`) -/
+theorem blt_former_foreign_errors :
+    loadBlt [.toks [.nat 2, .nat 1], .toks [.bad, .nat 1, .nat 0], .toks [.nat 0]] = .error Err.parseError
+    ∧ loadBlt [.toks [.nat 2, .nat 1], .toks [.nat 1, .udigit, .nat 0], .toks [.nat 0]] = .error Err.parseError
+    ∧ loadBlt [.toks [.nat 2, .nat 1], .toks [.nat 1, .nat 3, .nat 0], .toks [.nat 0]] = .error Err.parseError
+    ∧ loadBlt [.toks [.nat 2, .nat 1], .toks [.nat 1, .nat 0, .nat 2, .nat 0], .toks [.nat 0]] = .error Err.parseError := by
   decide +kernel
 
 /-- non-vacuity: withdrawn first and last candidate, empty ballot, Decimal and integral-Fraction weights, title -/
 def exDoc : Doc Weight :=
   { nSeats := 2, cands := [("Ann", true), ("J. Smith", false), ("Cy", true)],
-    ballots := [([0, 2, 1], .int 3), ([], .decimal (3/2) false), ([1], .fraction 2), ([2, 0], .decimal 7 true)],
+    ballots := [([0, 2, 1], .int 3), ([], .decimal (3/2) false), ([1], .fraction 2), ([2, 0], .decimal 7 true),
+                ([1, 0], .fraction (1/2))],
     title := some "Council" }
 example : WFdoc exDoc = true := by decide +kernel
-example : lexOK (dumpBlt exDoc) = true := by decide +kernel
-example : idxOK (dumpBlt exDoc) = true := by decide +kernel
-/-- a structurally broken but lexically sane text: ballot not zero-terminated -/
-example : lexOK [.toks [.nat 2, .nat 1], .toks [.nat 1, .nat 1], .toks [.nat 0]] = true
-    ∧ idxOK [.toks [.nat 2, .nat 1], .toks [.nat 1, .nat 1], .toks [.nat 0]] = true
-    ∧ loadBlt [.toks [.nat 2, .nat 1], .toks [.nat 1, .nat 1], .toks [.nat 0]] = .error Err.parseError := by decide +kernel
-
-
 end BltPart
 
 /-! ## Part 3 — STV files: candidate / ballot section at token level -/
